@@ -2967,12 +2967,8 @@ CaseExtRm:
           goto EmitVexEvexR;
         }
 
-        // Form 'k, k'.
-        if (!Support::test(options, InstOptions::kX86_ModMR))
-          goto EmitVexEvexR;
-
-        opcode.add(1);
-        std::swap(op_reg, rb_reg);
+        // Form 'k, k' - only the load opcode (90 /r) has a register form, the store opcode (91 /r) requires a
+        // memory operand, so InstOptions::kX86_ModMR has nothing to select here.
         goto EmitVexEvexR;
       }
 
